@@ -4,6 +4,7 @@ import (
 	"bytes"
 	"errors"
 	"fmt"
+	"io"
 	"testing"
 
 	"pgregory.net/rapid"
@@ -26,6 +27,9 @@ type c12Case struct {
 	// DeleteFiles: on-disk files attached with AttachFile/EmbedFile vanish before the render: the
 	// library's own file producer fails before emitting anything.
 	DeleteFiles bool `json:"delete_files,omitempty"`
+	// Dest: "" = a bare io.Writer; "rich" = the same destination behind Flush() error, io.StringWriter
+	// and io.ReaderFrom, as *bufio.Writer and friends have them.
+	Dest string `json:"dest,omitempty"`
 }
 
 var errSink = errors.New("verif: injected sink failure")
@@ -57,6 +61,40 @@ func (s *faultSink) Write(p []byte) (int, error) {
 	return 0, errSink
 }
 
+// richSink is the same destination behind the optional interfaces that real destinations bring along
+// (*bufio.Writer, gzip and network writers): Flush() error, io.StringWriter, io.ReaderFrom. The
+// accounting stays in the faultSink; Flush reports the destination's sticky error like bufio does.
+type richSink struct{ s *faultSink }
+
+func (r *richSink) Write(p []byte) (int, error)       { return r.s.Write(p) }
+func (r *richSink) WriteString(x string) (int, error) { return r.s.Write([]byte(x)) }
+func (r *richSink) Flush() error {
+	if r.s.failed {
+		return errSink
+	}
+	return nil
+}
+func (r *richSink) ReadFrom(src io.Reader) (int64, error) {
+	var total int64
+	buf := make([]byte, 512)
+	for {
+		n, rerr := src.Read(buf)
+		if n > 0 {
+			k, werr := r.s.Write(buf[:n])
+			total += int64(k)
+			if werr != nil {
+				return total, werr
+			}
+		}
+		if rerr == io.EOF {
+			return total, nil
+		}
+		if rerr != nil {
+			return total, rerr
+		}
+	}
+}
+
 func c12Render(c *c12Case, sink *faultSink) (n int64, err error, panicked interface{}) {
 	b, berr := gen.Build(&c.Spec, env)
 	if berr != nil {
@@ -85,7 +123,11 @@ func c12Render(c *c12Case, sink *faultSink) (n int64, err error, panicked interf
 			panicked = r
 		}
 	}()
-	n, err = b.Msg.WriteTo(sink)
+	var dest io.Writer = sink
+	if c.Dest == "rich" {
+		dest = &richSink{sink}
+	}
+	n, err = b.Msg.WriteTo(dest)
 	return n, err, nil
 }
 
@@ -221,7 +263,8 @@ func c12GenBase(t *rapid.T) c12Case {
 	if rapid.IntRange(0, 3).Draw(t, "generic") == 0 {
 		spec.Headers = append(spec.Headers, gen.HeaderSpec{Name: "X-Gen", Values: []string{"a generic header value with enough words in it to be folded over more than one line for sure, yes"}})
 	}
-	c := c12Case{Spec: *spec, SecondRender: rapid.Bool().Draw(t, "second"), Sign: rapid.IntRange(0, 5).Draw(t, "sign") == 0}
+	c := c12Case{Spec: *spec, SecondRender: rapid.Bool().Draw(t, "second"), Sign: rapid.IntRange(0, 5).Draw(t, "sign") == 0,
+		Dest: rapid.SampledFrom([]string{"", "", "rich"}).Draw(t, "dest")}
 	if c.Sign {
 		c.Spec.FixedDate = false
 	}
